@@ -36,7 +36,11 @@ func c9BuildH265(par int, ra bool, pay, fill int) [][]byte {
 		au = append(au, c9H265VPS, c9H265SPS, c9H265PPS)
 	}
 	if ra {
-		au = append(au, append([]byte{19 << 1, 0x01}, idBytes(pay, fill)...))
+		typ := byte(19) // IDR_W_RADL
+		if pay%3 == 0 {
+			typ = 21 // CRA_NUT: a random-access picture too (a stream may start with it)
+		}
+		au = append(au, append([]byte{typ << 1, 0x01}, idBytes(pay, fill)...))
 	} else {
 		au = append(au, append([]byte{1 << 1, 0x01}, idBytes(pay, fill)...))
 	}
